@@ -783,3 +783,10 @@ Print Assumptions C16_cnst_removeback_stable.
 Theorem C16_shiftx_same_code : @Gen_ShiftXSqrt.ShiftInsertRange = @Gen_ShiftXCnst.ShiftInsertRange /\ @Gen_ShiftXSqrt.ShiftRemoveIf = @Gen_ShiftXCnst.ShiftRemoveIf.
 Proof. exact ShiftX_Proofs.same_code. Qed.
 Print Assumptions C16_shiftx_same_code.
+
+(* review-fix: the invariant `ginv` of the regenerated-container theorems is established by the empty array also for cnst sizing (the sqrt twin
+   is C16_sqrt_arr_ginv_empty; every operation theorem above shows that ginv is preserved) *)
+Theorem C16_cnst_arr_ginv_empty : forall L, 0 <= L <= 62 ->
+  Arr_Proofs.ginv (Gen_SegCnst.GetSegItemIndexes L) SegModel_Inst.maxi (SegModel_Inst.SCc L) 0 0.
+Proof. exact Arr_Inst.cnst_ginv_empty. Qed.
+Print Assumptions C16_cnst_arr_ginv_empty.
